@@ -169,12 +169,10 @@ class Parser(object):
             )
 
     def _is_type_sizer_compatible(self, typename):
-        if typename in {type_ + width for type_ in 'ui' for width in ['8', '16', '32', '64']}:
-            return True
-        elif typename in self.typedecls and isinstance(self.typedecls[typename], model.Typedef):
-            return self._is_type_sizer_compatible(self.typedecls[typename].type_name)
-        else:
-            return False
+        decl = self.typedecls.get(typename)
+        while isinstance(decl, model.Typedef):
+            typename, decl = decl.type_name, decl.definition
+        return decl is None and typename in {type_ + width for type_ in 'ui' for width in ['8', '16', '32', '64']}
 
     def p_specification(self, t):
         '''specification : definition_list'''
